@@ -459,7 +459,10 @@ def run_mc(case, exact):
                     for op in case['ops']:
                         if op[0] == 'raise':
                             raise UserError()
-                        _call(mc, op[0], op[1:], sim)
+                        if op[0] == 'wait':             # the user's own time.sleep(d) between commands
+                            sim.sleep(sim.num(op[1]))
+                        else:
+                            _call(mc, op[0], op[1:], sim)
                         marks.append((len(sim.events), len(sim.puts), sim.now, bool(mc._is_flying)))
             except SimHang:
                 raise
